@@ -370,19 +370,43 @@ def run_streams(case):
     # the parameter before wrapping it): a TypeError is "unsupported", but an accepted iterable must
     # give the stream design
     try:
-      return run_streams_inner(case)
+      r = run_streams_inner(case)
     except TypeError:
       return R(None, False, (fam, which, ck, "unsupported"))
-  return run_streams_inner(case)
+    if r.viol is not None:
+      return r
+    # accepted by position: the same parameter given by keyword is the same call
+    try:
+      return run_streams_inner(case, True)
+    except TypeError as exc:
+      return bad("stream-params:keyword-route", "a %s parameter accepted by position is refused by keyword" % ck,
+                 "accepted", "TypeError: " + str(exc)[:160])
+  r = run_streams_inner(case)
+  return r if r.viol is not None else run_streams_inner(case, True)
 
 
-def run_streams_inner(case):
+def _kwcall(design, kw, names, vals):
+  if not kw:
+    return design(*vals)
+  import inspect
+  try:
+    target = getattr(design, "default", design) if not inspect.isfunction(design) else design
+    sig = inspect.signature(target).parameters
+    if any(p.kind in (p.VAR_POSITIONAL, p.VAR_KEYWORD) for p in sig.values()):
+      raise ValueError
+    params = list(sig)[:len(vals)]
+  except (TypeError, ValueError):
+    params = names
+  return design(**dict(zip(params, vals)))
+
+
+def run_streams_inner(case, kw=False):
   fam, name, vi, which, ck = case
   fs, bs = PARAM_LISTS[vi], BW_LISTS[vi]
   n = len(fs)
   if fam in ("lowpass", "highpass"):
     sd = lowpass if fam == "lowpass" else highpass
-    f = sd[name](as_kind(ck, fs))
+    f = _kwcall(sd[name], kw, ["cutoff"], [as_kind(ck, fs)])
     tabs = [coef_table(f, n)]
     refs = [[coef_table(sd[name](c), 1) for c in fs]]
   elif fam == "comb":
@@ -393,14 +417,14 @@ def run_streams_inner(case):
     if kindc == "tau":
       ps = [abs(v) + 0.5 for v in ps]
     n = len(ps)
-    f = design(3, as_kind(ck, ps))
+    f = _kwcall(design, kw, ["delay", "alpha"], [3, as_kind(ck, ps)])
     tabs = [coef_table(f, n)]
     refs = [[coef_table(design(3, c), 1) for c in ps]]
   else:
     design = resonator[name] if fam == "resonator" else gammatone[name]
     fa = as_kind(ck, fs) if which in ("both", "freq") else fs[0]
     ba = as_kind(ck, bs) if which in ("both", "bandwidth") else bs[0]
-    out = design(fa, ba)
+    out = _kwcall(design, kw, ["freq", "bandwidth"], [fa, ba])
     secs = list(out) if fam == "gammatone" else [out]
     tabs = [coef_table(s, n) for s in secs]
     refs = []
